@@ -29,6 +29,11 @@ def spec(tier):
                     sym = dict(cpus=I(1, 24 if th else 12), ma=I(1, 8), da=I(1, 3 if th else 2), db=I(1, 3 if th else 2))
                     obs.append(CH(name=f"recount_{algo}_{'multi' if multi else 'single'}_{pname}_d{dur}", harness="rsim.stats_recount",
                                   sym=sym, fixed=dict(cfg=cfg, ram=30), timeout=1200))
+    # the same decisions with is_resume=True on re-assignments of a pipeline (external / custom schedulers set the flag): counters unchanged
+    for algo, multi in (("resumeflag:priority", False), ("resumeflag:priority", True)) + ((("resumeflag:naive", False), ("resumeflag:overbook", False)) if th else ()):
+        cfg = dict(algo=algo, pools=1, oc=algo.endswith("overbook"), multi=multi, duration=10, pipes=patterns["mixed"])
+        obs.append(CH(name=f"recount_{algo.replace(':', '_')}_{'multi' if multi else 'single'}", harness="rsim.stats_recount",
+                      sym=dict(cpus=I(1, 12), ma=I(1, 8), da=I(1, 2)), fixed=dict(cfg=cfg, ram=30, db=1), timeout=1200))
     # runs that end while a suspension is still writing out (large pool => multi-tick write-outs)
     pend = [pipe("chain2", prio=3, at=0, durs=[1, 4]), pipe("single", prio=1, at="ta", durs=[2]), pipe("chain2", prio=2, at=0, durs=["da", 3])]
     for dur in (2, 3, 4, 6):
